@@ -384,10 +384,32 @@ def eci_multi_case(draw):
     return {'fn': draw(st.sampled_from(['make', 'make_qr'])), 'content': enc_content(parts), 'kw': kw}
 
 
+@st.composite
+def many_segments_case(draw):
+    """Many short parts of alternating modes with a requested version: the per-segment overhead
+    depends on the version (mode indicator and character count indicator widths)."""
+    k = draw(st.integers(3, 14))
+    pair = draw(st.sampled_from([('numeric', 'alphanumeric'), ('numeric', 'byte'), ('alphanumeric', 'byte'), ('kanji', 'numeric'),
+                                 ('byte', 'kanji')]))
+    parts = []
+    for i in range(k):
+        m = pair[i % 2]
+        n = draw(st.integers(1, 3))
+        parts.append(draw(_text(alphabet_for(m) if m != 'byte' else 'abcxyz,;', n)))
+    kw = {'version': draw(st.sampled_from([1, 1, 2, 3, 9, 10, 26, 27, 'M4', 'M3']))}
+    if draw(st.booleans()):
+        kw['error'] = draw(st.sampled_from(['L', 'M', 'Q', 'H']))
+    if draw(st.booleans()):
+        kw['boost_error'] = draw(st.booleans())
+    if draw(st.booleans()):
+        kw['mask'] = draw(st.integers(0, 3))
+    return {'fn': 'make', 'content': enc_content(parts), 'kw': kw}
+
+
 def make_cases(big=0.06, multi=True):
     opts = [constructive_single(big=big)] * 6 + [free_single()] * 3 + [eci_case()]
     if multi:
-        opts += [eci_multi_case()]
+        opts += [eci_multi_case(), many_segments_case()]
     if multi:
         opts += [multi_part()] * 2
     return st.one_of(*opts)
